@@ -157,7 +157,7 @@ func TestVerif_C02_Dense(t *testing.T) {
 			}
 		}
 		res := []string{"a+", "(ab)+", "a.a", `a\na`, "(?s)a.*?b", "a*", "^a", "a$", "(?m)^a", "(?m)a$", `\baaa\b`, `\babab\b`, `\ba a\b`, `\ba-a\b`, `\ba\b`, "abc|abcabc", "abcabc|abc",
-			"ab|abab", "[ab]+", "[^a\n]+", `\n+`, "(?i)abc", "é.", `\bé`, "a{2,3}", "(a|b)(a|b)", `aa\naa`, "b?a", "(?m)^$", `\s+`, ".*", "(?s).*", `a\b`, "aBc|Abc"}
+			"ab|abab", "(?s)abc.*abab", "(?s)aaa.*?abc", "abc(?s:.)*aaa", "(?s)abab.*Abc", "aaa.*abc", "[ab]+", "[^a\n]+", `\n+`, "(?i)abc", "é.", `\bé`, "a{2,3}", "(a|b)(a|b)", `aa\naa`, "b?a", "(?m)^$", `\s+`, ".*", "(?s).*", `a\b`, "aBc|Abc"}
 		for k := 0; k < 8; k++ {
 			qs = append(qs, &corpus.Q{T: "regex", Pat: res[rng.Intn(len(res))], CT: true, CS: rng.Intn(2) == 0})
 		}
